@@ -24,7 +24,7 @@ META = {
     ],
     "required_classes": ["pair", "point", "unary", "triple", "boxplus", "exact", "w_negative", "w_zero", "angle_seam"],
     "bounds": {
-        "quick": "pairs: full quick alphabets (SE3 24 poses, SE2 33, Rn 3); triples: 12-pose sub-alphabet cubed; exact tier: 24 Hurwitz x 3 dyadic translations squared",
+        "quick": "pairs: full quick alphabets (SE3 27 poses, SE2 36, Rn 3); triples: 12-pose sub-alphabet cubed; exact tier: 24 Hurwitz x 3 dyadic translations squared",
         "thorough": "pairs: full thorough alphabets (SE3 7x37 poses, SE2 7x25); triples: 40-pose sub-alphabet cubed",
     },
 }
